@@ -1,0 +1,7 @@
+//go:build !verif
+// +build !verif
+
+package verifhook
+
+// Yield is a no-op in normal builds.
+func Yield(point string) {}
